@@ -18,7 +18,7 @@ from .. import core, loop17, ref
 
 LEVEL = "model_checking"
 RULE = ("initial conditions: position offset in {0} U {+-1.5}^3 x attitude in {level} U {30,60 deg} x {e1,e2,(1,1,0)/sqrt2} x both quaternion signs x v in {0,(1,-1,0.5)} x "
-        "w in {0,(1,-1,0.5)} x yaw set-point {0, 0.5, 2} x 2 control modes x set-point position {(0,0,5),(40,-30,20)}; a state = one 10 ms sample of the closed loop, a transition = one control period of the real functions. "
+        "w in {0,(1,-1,0.5)} x yaw set-point {0, 0.5, 2} x 2 control modes x set-point position {(0,0,5),(40,-30,20)}; + ground starts (motors stopped, 3 headings) and literal half-turn attitudes (0,0,0,+-1); a state = one 10 ms sample of the closed loop, a transition = one control period of the real functions. "
         "non-trivial = initial condition differs from hover at the set-point")
 ASSUMPTIONS = ["perfect state feedback (the estimator is C08/C11/C12's business)", "RK4 with 1 ms sub-steps is the plant integrator",
                "initial conditions between lattice points and beyond the envelope are not covered"]
@@ -63,7 +63,18 @@ def lattice(tier):
         # sub-lattice at the far one
         far = [c[:6] + (1,) for c in lattice_index_cover(dims)]
         full = [c for c in full if c[6] == 0] + far
-    return [dict(off=offs[a], att=atts[b], v=vs[c], w=ws[d], yaw=yaws[e], mode=modes[f], target=targets[g]) for a, b, c, d, e, f, g in full]
+    out = [dict(off=offs[a], att=atts[b], v=vs[c], w=ws[d], yaw=yaws[e], mode=modes[f], target=targets[g]) for a, b, c, d, e, f, g in full]
+    # special initial conditions (complete small product): at rest on the ground with the motors stopped (where the repository's
+    # simulator starts) at three headings, and attitudes written literally as (0,0,0,+-1): a yaw error of exactly half a turn
+    for mode in modes:
+        for ysp in (0.0, 0.5):
+            for yaw0 in (0.0, 60.0, 100.0):
+                out.append(dict(off=(0.5, -0.5, -5.0), att=(math.radians(yaw0), (0, 0, 1.0), 1), v=(0.0, 0.0, 0.0), w=(0.0, 0.0, 0.0), yaw=ysp, mode=mode,
+                                target=targets[0], ground=True))
+            for sgn in (1.0, -1.0):
+                out.append(dict(off=(0.5, 0.0, 0.0), att=(0.0, (0, 0, 1.0), 1), v=(0.0, 0.0, 0.0), w=(0.0, 0.0, 0.0), yaw=ysp, mode=mode,
+                                target=targets[0], literal_q=[0.0, 0.0, 0.0, sgn]))
+    return out
 
 
 def lattice_index_cover(dims):
@@ -93,13 +104,15 @@ def explore(case):
     axv = np.array(ax, dtype=float)
     axv /= np.linalg.norm(axv)
     q = ref.quat_of(axv * th, sgn)
+    if cfg.get("literal_q"):
+        q = np.array(cfg["literal_q"], dtype=float)
     TARGET = np.array(cfg.get("target", (0.0, 0.0, 5.0)), dtype=float)
-    x0 = np.concatenate([TARGET + np.array(cfg["off"]), cfg["v"], q, cfg["w"], np.full(4, hover)])
+    x0 = np.concatenate([TARGET + np.array(cfg["off"]), cfg["v"], q, cfg["w"], np.full(4, 0.0 if cfg.get("ground") else hover)])
     tf = 20.0 if cfg["mode"] == "mellinger" else 30.0
     res.count("evaluations")
     if any(cfg["off"]) or th or any(cfg["v"]) or any(cfg["w"]):
         res.nontrivial.add(hash(str(cfg)))
-    cls = "%s;yaw=%g" % (cfg["mode"], cfg["yaw"])
+    cls = "%s;yaw=%g" % (cfg["mode"], cfg["yaw"]) + (";ground_start" if cfg.get("ground") else "") + (";literal_half_turn" if cfg.get("literal_q") else "")
     try:
         r = loop17.run(cfg["mode"], x0, TARGET, cfg["yaw"], tf)
     except Exception as ex:
@@ -115,7 +128,7 @@ def explore(case):
     umax = math.sqrt(20.0 / pd["CT"])
     if U.min() < -1e-9 or U.max() > umax * (1 + 1e-9) or not np.all(np.isfinite(U)):
         res.fail(site="closed_loop", clause="motor_commands_within_limits", cls=cls, detail=dict(cfg=cfg, u_min=float(U.min()), u_max=float(U.max()), limit=umax), sub="loop", case=case)
-    if X[:, 2].min() <= 0:
+    if X[:, 2].min() <= (-0.01 if cfg.get("ground") else 0.0):
         res.fail(site="closed_loop", clause="stays_above_ground", cls=cls, detail=dict(cfg=cfg, z_min=float(X[:, 2].min())), sub="loop", case=case)
     qn = np.linalg.norm(X[:, 6:10], axis=1)
     if np.max(np.abs(qn - 1)) > 1e-6:
